@@ -58,7 +58,7 @@ CHECKS = {
     ),
     "C12": dict(
         text="Decides operator structure O-(BAFB)-O, two noise draws per step, the fluctuation-dissipation identity of the whole-step velocity map, tau=inf == NVE, T=0 only removes energy, padding untouched, and that the coefficients in force stem from the current configuration of a re-used driver object. TLC checks VVExact with the Langevin wrapping (c1 in {1,1/2}, c2 = A/m, TLC-chosen +-1 noise patterns): OIdentity, ODissipates, Exact; behaviours are replayed on the real Molecular_Dynamics_Langevin (and damped XL_BOMD) with c1/c2 set to the dyadic values and torch.randn_like returning the pattern; HDF5 rows must equal the exact rationals and exactly 2 draws per step are consumed. TLC checks Thermostat (life cycle of the coefficients on a driver that is reconfigured and re-run: CoeffCurrent; the cached-coefficient deviation is refuted) and evaluates its identities on the per-atom step map v' = a v + SUM g_k xi_k measured through run() on Langevin, damped XL-BOMD, damped KSA (zero-force stub, selector noise patterns) and on the inherited O operator of surface hopping: SUM g_k^2 = (kT/m)(1 - a^2) to 3e-6 for dt/damp 1e-4..10, all masses of padded batches, temperatures incl. 0 K, damp = inf. Public constructor: damp=inf reproduces the NVE files bit for bit, Temp=0 never increases kinetic energy, padding velocities stay 0.",
-        note="Not decided: long-run sampling statistics (mean kinetic temperature within statistical error). The step map is measured with zero forces, where it is affine; kT/m uses the driver's own unit literals (agreement with the code's 1e-9).",
+        note="Long-run statistics are a monitored predicate with fixed seeds (16 chains on exact springs per engine; mean kinetic temperature of the second halves within 5 standard errors + 1 % of the target). The step map is measured with zero forces, where it is affine; kT/m uses the driver's own unit literals (agreement with the code's 1e-9).",
         tech="explicit TLA+ models (VVExact Langevin engine; Thermostat) checked by TLC; exported behaviours replayed on the real thermostat step; identities evaluated by TLC on step maps measured on the real engines",
         ref="DESIGN.md §4 C12",
     ),
